@@ -63,6 +63,10 @@ func c02(r *hx.Run) {
 		{[]string{"C", "R01", "R01b", "D0"}, g6, true},
 		{[]string{"C", "U01", "U01b", "U12", "U1b2"}, g4[:4], false},
 		{[]string{"C~x", "C", "U01"}, g9, true}, // a stored create that the applier refuses is skipped: the next create defines the DID
+		// a refused competitor that carries the SAME next commitment as the genuine operation (a tampered copy anchored first) does not
+		// use that commitment up
+		{[]string{"C", "Ft0(U01)", "U01", "U01b"}, g6, true},
+		{[]string{"C", "Ft0(R01)", "R01", "U01"}, g6, true},
 	}
 	if r.Tier == "thorough" {
 		shapes = append(shapes,
